@@ -310,6 +310,33 @@ func (s *Spec) Ops(st *explore.State) []explore.Op {
 			ops = append(ops, s.voteOp(oi, 2, "A"))
 		}
 	}
+	if s.WrongN || s.Prop == "C02" {
+		// a vote submitted by somebody who is not the oracle's registered bridger (the oracle's own account, a stranger,
+		// the bridger of another oracle naming this oracle's nonce): never accepted, never counted
+		o := s.os[0]
+		last := k.GetLastEventNonceByOracle(ctx, o.Acct.Acc())
+		if last+1 <= s.MaxNonce {
+			for _, via := range []struct {
+				name string
+				a    world.Actor
+			}{{"own-account", o.Acct}, {"stranger", s.w.A("u2")}} {
+				via := via
+				ops = append(ops, explore.Op{Name: fmt.Sprintf("VoteVia(o1,%s)", via.name), Run: func(st *explore.State) {
+					preObs := k.GetLastObservedEventNonce(st.Ctx)
+					pre := s.w.Digest(st.Ctx)
+					claim := scen.WithBridger(s.claim(last+1, "A"), via.a.Bech())
+					r := s.w.Deliver(st.Ctx, scen.WrapClaim(s.Chain, via.a.Bech(), claim))
+					st.Accepted = r.OK()
+					st.Outcome = map[bool]string{true: "accepted", false: "rejected"}[r.OK()]
+					if r.OK() {
+						st.Violate("vote-admission", s.sig("vote-accepted-from-non-bridger"), fmt.Sprintf("a claim submitted by %s (not a registered bridger) was accepted", via.name))
+					} else if s.w.Digest(st.Ctx) != pre || k.GetLastObservedEventNonce(st.Ctx) != preObs {
+						st.Violate("rejected-vote-changes-nothing", s.sig("rejected-vote-had-effect"), "VoteVia "+via.name)
+					}
+				}})
+			}
+		}
+	}
 	if s.Execute {
 		lo := k.GetLastObservedEventNonce(ctx)
 		for n := uint64(2); n <= lo+1 && n <= s.MaxNonce; n++ {
